@@ -44,6 +44,7 @@ Lemma get_wclqs s v h : get (with_clqs s v) h = get s h. Proof. reflexivity. Qed
 Lemma get_wcb s v h : get (with_cbcount s v) h = get s h. Proof. reflexivity. Qed.
 Lemma get_wrace s v h : get (with_race s v) h = get s h. Proof. reflexivity. Qed.
 Lemma get_log s e h : get (log s e) h = get s h. Proof. reflexivity. Qed.
+Ltac gs_in H := repeat first [rewrite get_wtr in H | rewrite get_wtree in H | rewrite get_wdisp in H | rewrite get_wpipes in H | rewrite get_log in H | rewrite get_wbatch in H | rewrite get_wclqs in H | rewrite get_wcb in H | rewrite get_wrace in H].
 Ltac gs := repeat first [rewrite get_wtr | rewrite get_wtree | rewrite get_wdisp | rewrite get_wpipes
                         | rewrite get_log | rewrite get_wbatch | rewrite get_wclqs | rewrite get_wcb | rewrite get_wrace].
 
@@ -371,8 +372,14 @@ Section Rule.
     P CMid (msg_finish (log s (ECbEnd h)) h r).
   Hypothesis H_skip : forall s h sig r, P CMid s -> batch s = (h, sig) :: r ->
     sig <> h_signum (get s h) -> P CMid (msg_finish s h r).
-  Hypothesis H_clq : forall s l q, P CMid s -> P CMid (set_clq s l q).
-  Hypothesis H_closed : forall s h, P CMid s ->
+  (* [Rq s h]: what is known about a handle taken from the closing queue *)
+  Variable Rq : state -> nat -> Prop.
+  Hypothesis H_q0 : forall s l h, P CMid s -> In h (clq_of s l) -> Rq s h.
+  Hypothesis H_q_clq : forall s l q h, Rq s h -> Rq (set_clq s l q) h.
+  Hypothesis H_q_closed : forall s h' h, Rq s h -> Rq (log (upd_h s h' h_set_closed) (ECloseCb h')) h.
+  Hypothesis H_clq_nil : forall s l, P CMid s -> P CMid (set_clq s l []).
+  Hypothesis H_requeue : forall s l h, P CMid s -> Rq s h -> P CMid (set_clq s l (h :: clq_of s l)).
+  Hypothesis H_closed : forall s h, P CMid s -> Rq s h ->
     (h_dispatched (get s h) <? h_caught (get s h)) = false ->
     P CMid (log (upd_h s h h_set_closed) (ECloseCb h)).
   Hypothesis H_end : forall s l, P CMid s -> P CTop (snap (log s (ERunEnd l))).
@@ -408,11 +415,15 @@ Section Rule.
     destruct (_ =? _); auto.
   Qed.
 
-  Lemma rule_finish_all l q : forall s, P CMid s -> batch s = [] ->
+  Lemma rule_finish_all l q : forall s, P CMid s -> batch s = [] -> (forall h, In h q -> Rq s h) ->
     P CMid (finish_all s l q) /\ batch (finish_all s l q) = [].
   Proof.
-    induction q as [|h q IH]; intros s HP Hb; simpl; auto.
+    induction q as [|h q IH]; intros s HP Hb HR; simpl; auto.
     apply IH; unfold finish_close; destruct (_ <? _) eqn:E; auto.
+    - apply H_requeue; auto. apply HR; simpl; auto.
+    - apply H_closed; auto. apply HR; simpl; auto.
+    - intros h' Hh'. apply H_q_clq. apply HR; simpl; auto.
+    - intros h' Hh'. apply H_q_closed. apply HR; simpl; auto.
   Qed.
 
   Lemma rule_dispatch fuel l s : P CTop s -> batch s = [] ->
@@ -422,6 +433,7 @@ Section Rule.
     destruct (rule_event fuel l (log s (ERunBegin l))) as [A B]; auto.
     destruct (rule_finish_all l (clq_of (signal_event fx beh fuel (log s (ERunBegin l)) l) l)
                 (set_clq (signal_event fx beh fuel (log s (ERunBegin l)) l) l [])) as [C D]; auto.
+    intros h Hh. apply H_q_clq. eapply H_q0; eauto.
   Qed.
 
   Lemma rule_top fuel s o : P CTop s -> batch s = [] ->
@@ -974,7 +986,7 @@ Qed.
 
 Theorem tinv_run fx beh fuel c ops : TInv CTop (run fx beh fuel (init c) ops).
 Proof.
-  apply (rule_run fx beh TInv); auto using tinv_api, tinv_begin, tinv_take, tinv_clq, tinv_closed, tinv_end, tinv_init.
+  apply (rule_run fx beh TInv) with (Rq := fun _ _ => True); auto using tinv_api, tinv_begin, tinv_take, tinv_clq, tinv_closed, tinv_end, tinv_init.
   - intros; eapply tinv_enter; eauto.
   - intros; eapply tinv_exit; eauto.
   - intros; eapply tinv_skip; eauto.
@@ -1125,4 +1137,374 @@ Theorem oneshot_then_stopped fx beh fuel c ops seg t0 h sg k :
 Proof.
   cbv zeta. intros Ht Hm Hn. apply idle_means_stopped. rewrite Ht.
   apply mode_idle_persist; auto. simpl. rewrite Nat.eqb_refl, Hm. reflexivity.
+Qed.
+
+(* ------------------------------------------------------------------ *)
+(* 5. the tree: order, insertion, removal, lookups                      *)
+(* ------------------------------------------------------------------ *)
+Definition n2 (x : handle) : nat := if h_oneshot x then 1 else 0.
+
+Definition lexlt (a : handle) (ia : nat) (b : handle) (ib : nat) : Prop :=
+  h_signum a < h_signum b \/
+  (h_signum a = h_signum b /\
+   (n2 a < n2 b \/ (n2 a = n2 b /\ (h_loop a < h_loop b \/ (h_loop a = h_loop b /\ ia < ib))))).
+
+Ltac cmp_tac :=
+  unfold sig_compare, lexlt, n2;
+  repeat match goal with
+         | |- context [?x <? ?y] => destruct (Nat.ltb_spec x y)
+         | |- context [h_oneshot ?x] => destruct (h_oneshot x)
+         end; split; intros; try reflexivity; try discriminate; try lia.
+
+Lemma cmp_lt a ia b ib : sig_compare a ia b ib = Lt <-> lexlt a ia b ib.
+Proof. cmp_tac. Qed.
+Lemma cmp_gt a ia b ib : sig_compare a ia b ib = Gt <-> lexlt b ib a ia.
+Proof. cmp_tac. Qed.
+Lemma cmp_eq a ia b ib : sig_compare a ia b ib = Eq -> ia = ib.
+Proof.
+  unfold sig_compare;
+  repeat match goal with
+         | |- context [?x <? ?y] => destruct (Nat.ltb_spec x y)
+         | |- context [h_oneshot ?x] => destruct (h_oneshot x)
+         end; intros; try discriminate; lia.
+Qed.
+
+Definition klt (s : state) (a b : nat) : Prop := lexlt (get s a) a (get s b) b.
+
+Lemma klt_trans s a b c : klt s a b -> klt s b c -> klt s a c.
+Proof. unfold klt, lexlt. lia. Qed.
+
+Definition same_key (x y : handle) : Prop :=
+  h_signum y = h_signum x /\ h_oneshot y = h_oneshot x /\ h_loop y = h_loop x.
+
+Lemma klt_ext s s' a b : same_key (get s a) (get s' a) -> same_key (get s b) (get s' b) ->
+  klt s a b -> klt s' a b.
+Proof.
+  unfold klt, lexlt, n2, same_key. intros (a1&a2&a3) (b1&b2&b3). rewrite a1, a2, a3, b1, b2, b3. auto.
+Qed.
+
+Lemma sorted_ext s s' t : (forall y, In y t -> same_key (get s y) (get s' y)) ->
+  StronglySorted (klt s) t -> StronglySorted (klt s') t.
+Proof.
+  intros K H. induction H as [|y t H IH F]; constructor.
+  - apply IH. intros; apply K; simpl; auto.
+  - rewrite Forall_forall in *. intros z Hz. eapply klt_ext; [| |apply F; auto]; apply K; simpl; auto.
+Qed.
+
+Lemma sorted_filter {A} (R : A -> A -> Prop) f t : StronglySorted R t -> StronglySorted R (filter f t).
+Proof.
+  induction 1 as [|y t H IH F]; simpl. constructor.
+  destruct (f y); auto. constructor; auto.
+  rewrite Forall_forall in *. intros z Hz. apply filter_In in Hz. apply F. tauto.
+Qed.
+
+Lemma sorted_nodup s t : StronglySorted (klt s) t -> NoDup t.
+Proof.
+  induction 1 as [|y t H IH F]; constructor; auto.
+  intros Hy. rewrite Forall_forall in F. specialize (F y Hy). unfold klt, lexlt in F. lia.
+Qed.
+
+Lemma remove_in x y t : In y (tree_remove x t) <-> In y t /\ y <> x.
+Proof.
+  unfold tree_remove. rewrite filter_In. rewrite negb_true_iff, Nat.eqb_neq. tauto.
+Qed.
+
+Lemma insert_in s x t : ~ In x t -> forall y, In y (tree_insert (hs s) x t) <-> y = x \/ In y t.
+Proof.
+  induction t as [|z t IH]; intros Hx y; simpl.
+  - intuition.
+  - fold (get s x). fold (get s z).
+    destruct (sig_compare (get s x) x (get s z) z) eqn:E; simpl.
+    + apply cmp_eq in E. exfalso. apply Hx. simpl; auto.
+    + intuition.
+    + rewrite IH by (intros H; apply Hx; simpl; auto). intuition.
+Qed.
+
+Lemma insert_sorted s x t : ~ In x t -> StronglySorted (klt s) t ->
+  StronglySorted (klt s) (tree_insert (hs s) x t).
+Proof.
+  intros Hx H. induction H as [|z t H IH F]; simpl.
+  - repeat constructor.
+  - fold (get s x). fold (get s z).
+    destruct (sig_compare (get s x) x (get s z) z) eqn:E.
+    + constructor; auto.
+    + apply cmp_lt in E. constructor. constructor; auto.
+      constructor; auto. rewrite Forall_forall in *. intros w Hw. eapply klt_trans; eauto.
+    + apply cmp_gt in E. constructor.
+      * apply IH. intros Hi; apply Hx; simpl; auto.
+      * rewrite Forall_forall in *. intros w Hw.
+        apply insert_in in Hw; [|intros Hi; apply Hx; simpl; auto].
+        destruct Hw as [->|Hw]; auto.
+Qed.
+
+(* lookups in a sorted tree *)
+Definition sigs_ge (s : state) (n : nat) (t : list nat) : Prop := forall y, In y t -> n <= h_signum (get s y).
+
+Lemma sorted_tail_ge s y t : StronglySorted (klt s) (y :: t) -> sigs_ge s (h_signum (get s y)) t.
+Proof.
+  intros H z Hz. inversion H as [|? ? _ F]; subst. rewrite Forall_forall in F.
+  specialize (F z Hz). unfold klt, lexlt in F. lia.
+Qed.
+
+Lemma find_first_spec s sig t : StronglySorted (klt s) t ->
+  match find (fun y => sig <=? h_signum (get s y)) t with
+  | Some f => In f t /\ sig <= h_signum (get s f) /\
+              (forall y, In y t -> h_signum (get s y) = sig ->
+                         h_signum (get s f) = sig /\ n2 (get s f) <= n2 (get s y))
+  | None => forall y, In y t -> h_signum (get s y) < sig
+  end.
+Proof.
+  induction 1 as [|z t H IH F]; simpl. contradiction.
+  destruct (Nat.leb_spec sig (h_signum (get s z))) as [L|L].
+  - split; auto. split; auto. intros y [<-|Hy] Es; [lia|].
+    rewrite Forall_forall in F. specialize (F y Hy). unfold klt, lexlt in F. lia.
+  - destruct (find _ t) as [f|].
+    + destruct IH as (a&b&c). split; auto. split; auto.
+      intros y [<-|Hy] Es; [lia|auto].
+    + intros y [<-|Hy]; auto.
+Qed.
+
+Lemma first_handle_none s sig : StronglySorted (klt s) (tree s) ->
+  first_handle s sig = None -> forall y, In y (tree s) -> h_signum (get s y) <> sig.
+Proof.
+  intros S. unfold first_handle. pose proof (find_first_spec s sig (tree s) S) as P.
+  destruct (find _ (tree s)) as [f|].
+  - destruct P as (a&b&c). destruct (Nat.eqb_spec (h_signum (get s f)) sig); [discriminate|].
+    intros _ y Hy Es. destruct (c y Hy Es). congruence.
+  - intros _ y Hy. specialize (P y Hy). lia.
+Qed.
+
+Lemma first_handle_some s sig f : StronglySorted (klt s) (tree s) ->
+  first_handle s sig = Some f ->
+  In f (tree s) /\ h_signum (get s f) = sig /\
+  (forall y, In y (tree s) -> h_signum (get s y) = sig -> h_oneshot (get s f) = true -> h_oneshot (get s y) = true).
+Proof.
+  intros S. unfold first_handle. pose proof (find_first_spec s sig (tree s) S) as P.
+  destruct (find _ (tree s)) as [f'|]; [|discriminate].
+  destruct P as (a&b&c). destruct (Nat.eqb_spec (h_signum (get s f')) sig); [|discriminate].
+  intros E; inversion E; subst f'. split; auto. split; auto.
+  intros y Hy Es Ff. destruct (c y Hy Es) as [_ Le]. unfold n2 in Le. rewrite Ff in Le.
+  destruct (h_oneshot (get s y)); auto; lia.
+Qed.
+
+Lemma walk_in s sig t y : In y (walk s sig t) -> In y t /\ h_signum (get s y) = sig.
+Proof.
+  induction t as [|z t IH]; simpl; [contradiction|].
+  destruct (Nat.eqb_spec (h_signum (get s z)) sig); simpl; [|contradiction].
+  intros [<-|H]; auto. apply IH in H. tauto.
+Qed.
+
+Lemma drop_below_in s sig t y : In y (drop_below s sig t) -> In y t.
+Proof.
+  induction t as [|z t IH]; simpl; auto. destruct (_ <? _); auto.
+Qed.
+
+Lemma targets_in s sig y : In y (targets s sig) -> In y (tree s) /\ h_signum (get s y) = sig.
+Proof.
+  unfold targets. intros H. apply walk_in in H. destruct H. split; auto. eapply drop_below_in; eauto.
+Qed.
+
+Lemma walk_complete s sig t : StronglySorted (klt s) t -> sigs_ge s sig t ->
+  forall y, In y t -> h_signum (get s y) = sig -> In y (walk s sig t).
+Proof.
+  induction 1 as [|z t H IH F]; intros G y Hy Es; simpl in *. contradiction.
+  destruct (Nat.eqb_spec (h_signum (get s z)) sig) as [E|E].
+  - destruct Hy as [<-|Hy]; simpl; auto. right. apply IH; auto. intros w Hw. apply G; simpl; auto.
+  - exfalso. destruct Hy as [<-|Hy]; [congruence|].
+    assert (sig <= h_signum (get s z)) by (apply G; simpl; auto).
+    rewrite Forall_forall in F. specialize (F y Hy). unfold klt, lexlt in F. lia.
+Qed.
+
+Lemma targets_complete s sig : StronglySorted (klt s) (tree s) ->
+  forall y, In y (tree s) -> h_signum (get s y) = sig -> In y (targets s sig).
+Proof.
+  unfold targets. generalize (tree s). induction 1 as [|z t H IH F]; intros y Hy Es. contradiction.
+  cbn [drop_below]. destruct (Nat.ltb_spec (h_signum (get s z)) sig) as [L|L].
+  - destruct Hy as [<-|Hy]; [lia|]. apply IH; auto.
+  - apply walk_complete; auto. constructor; auto.
+    intros w [<-|Hw]; auto.
+    rewrite Forall_forall in F. specialize (F w Hw). unfold klt, lexlt in F. lia.
+Qed.
+
+Lemma sorted_sub_nodup s sig : StronglySorted (klt s) (tree s) -> NoDup (targets s sig).
+Proof.
+  intros S. unfold targets.
+  assert (G : forall t, NoDup t -> NoDup (walk s sig (drop_below s sig t))).
+  { induction t as [|z t IH]; intros N; simpl. constructor.
+    inversion N; subst. destruct (_ <? _); auto.
+    clear IH. revert N. generalize (z :: t). induction l as [|w l IH]; intros N; simpl. constructor.
+    inversion N; subst. destruct (_ =? _); constructor; auto.
+    intros Hw. apply walk_in in Hw. tauto. }
+  apply G. eapply sorted_nodup; eauto.
+Qed.
+
+(* ------------------------------------------------------------------ *)
+(* 6. state invariants S1-S3                                            *)
+(* ------------------------------------------------------------------ *)
+Fixpoint cnt (h : nat) (l : list msg) : nat :=
+  match l with
+  | [] => 0
+  | m :: r => (if fst m =? h then 1 else 0) + cnt h r
+  end.
+
+(* messages caught for h and not yet handled: in its loop's pipe or in the buffer *)
+Definition pending (s : state) (h : nat) : nat :=
+  cnt h (pipe_of s (h_loop (get s h))) + cnt h (batch s).
+
+Record SCore (s : state) : Prop := {
+  s_tree : forall h, In h (tree s) <-> h_signum (get s h) <> 0;
+  s_sorted : StronglySorted (klt s) (tree s);
+  s_closed : forall h, h_closed (get s h) = true -> h_closing (get s h) = true;
+  s_clq : forall l h, In h (clq_of s l) -> h_closing (get s h) = true;
+  s_pipe : forall l m, In m (pipe_of s l) -> h_loop (get s (fst m)) = l /\ fst m < length (hs s);
+  s_batchv : forall m, In m (batch s) -> fst m < length (hs s);
+  s_count : forall h, h < length (hs s) -> h_caught (get s h) = h_dispatched (get s h) + pending s h;
+  s_closed0 : forall h, h_closed (get s h) = true -> pending s h = 0
+}.
+
+Definition SClosing (s : state) : Prop :=
+  forall h, h_closing (get s h) = true -> h_signum (get s h) = 0.
+
+Definition SInv (s : state) : Prop := SCore s /\ SClosing s.
+
+Lemma cnt_app h a b : cnt h (a ++ b) = cnt h a + cnt h b.
+Proof. induction a; simpl; auto. rewrite IHa. lia. Qed.
+
+Lemma cnt_zero h l : (forall m, In m l -> fst m <> h) -> cnt h l = 0.
+Proof.
+  induction l as [|m l IH]; simpl; auto. intros H.
+  destruct (Nat.eqb_spec (fst m) h) as [E|E]; [exfalso; eapply H; eauto|].
+  apply IH. intros; apply H; auto.
+Qed.
+
+(* what may change in a handle without touching the invariants *)
+Definition same_acc (x y : handle) : Prop :=
+  h_signum y = h_signum x /\ h_oneshot y = h_oneshot x /\ h_loop y = h_loop x /\
+  h_caught y = h_caught x /\ h_dispatched y = h_dispatched x /\
+  (h_closing x = true -> h_closing y = true) /\ h_closed y = h_closed x.
+
+Lemma same_acc_refl x : same_acc x x.
+Proof. repeat split; auto. Qed.
+
+Lemma same_acc_key x y : same_acc x y -> same_key x y.
+Proof. intros (a&b&c&_). repeat split; auto. Qed.
+
+Lemma pending_frame s s' h :
+  pipe_of s' = pipe_of s -> batch s' = batch s -> h_loop (get s' h) = h_loop (get s h) ->
+  pending s' h = pending s h.
+Proof. unfold pending. intros -> -> ->. reflexivity. Qed.
+
+Lemma score_frame s s' :
+  tree s' = tree s -> pipe_of s' = pipe_of s -> batch s' = batch s -> clq_of s' = clq_of s ->
+  length (hs s') = length (hs s) -> (forall x, same_acc (get s x) (get s' x)) ->
+  SCore s -> SCore s'.
+Proof.
+  intros Et Ep Eb Eq El Ac [T So C Q P B N Z].
+  split; rewrite ?Et, ?Ep, ?Eb, ?Eq, ?El.
+  - intros h. destruct (Ac h) as (a&_). rewrite a. apply T.
+  - eapply sorted_ext; [|exact So]. intros; apply same_acc_key; auto.
+  - intros h. destruct (Ac h) as (_&_&_&_&_&c&d). rewrite d. auto.
+  - intros l h Hh. destruct (Ac h) as (_&_&_&_&_&c&_). eauto.
+  - intros l m Hm. destruct (Ac (fst m)) as (_&_&c&_). rewrite c. auto.
+  - auto.
+  - intros h Hh. destruct (Ac h) as (_&_&c&d&e&_). rewrite d, e.
+    rewrite (pending_frame s s') by auto. auto.
+  - intros h Hh. destruct (Ac h) as (_&_&c&_&_&_&d). rewrite d in Hh.
+    rewrite (pending_frame s s') by auto. auto.
+Qed.
+
+Lemma acc_of_upd s h f :
+  (forall x, same_acc x (f x)) -> forall x, same_acc (get s x) (get (upd_h s h f) x).
+Proof.
+  intros F x. destruct (Nat.eq_dec h x) as [<-|N].
+  - destruct (Nat.lt_ge_cases h (length (hs s))).
+    + rewrite get_upd_same by auto. apply F.
+    + rewrite upd_h_oob by auto. apply same_acc_refl.
+  - rewrite get_upd_other by auto. apply same_acc_refl.
+Qed.
+
+Lemma score_upd_acc s h f : (forall x, same_acc x (f x)) -> SCore s -> SCore (upd_h s h f).
+Proof.
+  intros F. apply score_frame; try reflexivity.
+  - apply len_upd_h.
+  - apply acc_of_upd; auto.
+Qed.
+
+(* --- uv__signal_stop --- *)
+Lemma stop_clq s h : clq_of (sig_stop s h) = clq_of s.
+Proof.
+  unfold sig_stop. destruct (_ =? 0); auto. ssimpl.
+  destruct (first_handle _ _); [destruct (_ && _)|]; reflexivity.
+Qed.
+
+Lemma score_stop s h : SCore s -> SCore (sig_stop s h).
+Proof.
+  intros C. destruct (Nat.eq_dec (h_signum (get s h)) 0) as [E|E].
+  { rewrite stop_noop; auto. }
+  destruct C as [T So C Q P B N Z].
+  assert (Hl : h < length (hs s)) by (apply signum_valid; auto).
+  assert (G : get (sig_stop s h) h = h_set_stopped (get s h)) by (apply stop_get_same; auto).
+  assert (Lp : forall x, h_loop (get (sig_stop s h) x) = h_loop (get s x)).
+  { intros x. destruct (Nat.eq_dec h x) as [<-|]; [rewrite G; reflexivity | rewrite stop_get_other; auto]. }
+  assert (Pe : forall x, pending (sig_stop s h) x = pending s x).
+  { intros x. apply pending_frame; auto using stop_pipe, stop_batch. }
+  split; rewrite ?stop_tree, ?stop_pipe, ?stop_batch, ?stop_clq, ?stop_len by auto.
+  - intros x. rewrite remove_in. destruct (Nat.eq_dec h x) as [<-|Hn].
+    + rewrite stop_signum. intuition.
+    + rewrite stop_get_other by auto. rewrite T. intuition.
+  - eapply sorted_ext; [|apply sorted_filter; exact So].
+    intros y Hy. apply remove_in in Hy. destruct Hy as [_ Hy].
+    rewrite stop_get_other by auto. repeat split.
+  - intros x. destruct (Nat.eq_dec h x) as [<-|Hn]; [rewrite G; simpl; auto | rewrite stop_get_other; auto].
+  - intros l x Hx. destruct (Nat.eq_dec h x) as [<-|Hn]; [rewrite G; simpl; eauto | rewrite stop_get_other; eauto].
+  - intros l m Hm. rewrite Lp. auto.
+  - auto.
+  - intros x Hx. rewrite Pe. destruct (Nat.eq_dec h x) as [<-|Hn]; [rewrite G; simpl; auto | rewrite stop_get_other; auto].
+  - intros x Hx. rewrite Pe. apply Z. destruct (Nat.eq_dec h x) as [<-|Hn]; [rewrite G in Hx; auto | rewrite stop_get_other in Hx; auto].
+Qed.
+
+Lemma sclosing_stop s h :
+  (forall x, x <> h -> h_closing (get s x) = true -> h_signum (get s x) = 0) -> SClosing (sig_stop s h).
+Proof.
+  intros H x Hx. destruct (Nat.eq_dec h x) as [<-|Hn].
+  - apply stop_signum.
+  - rewrite stop_get_other in * by auto. auto.
+Qed.
+
+(* --- insertion at the end of uv__signal_start --- *)
+Lemma score_insert s h sig flag :
+  SCore s -> h_signum (get s h) = 0 -> h < length (hs s) -> sig <> 0 ->
+  let s4 := upd_h s h (h_set_started sig flag) in
+  SCore (with_tree s4 (tree_insert (hs s4) h (tree s4))).
+Proof.
+  intros [T So C Q P B N Z] E0 Hl Hs. cbv zeta.
+  set (s4 := upd_h s h (h_set_started sig flag)).
+  assert (G : get s4 h = h_set_started sig flag (get s h)) by (apply get_upd_same; auto).
+  assert (Go : forall x, x <> h -> get s4 x = get s x) by (intros; apply get_upd_other; auto).
+  assert (Ni : ~ In h (tree s)) by (rewrite T; intuition).
+  assert (Lp : forall x, h_loop (get s4 x) = h_loop (get s x)).
+  { intros x. destruct (Nat.eq_dec x h) as [->|]; [rewrite G; reflexivity | rewrite Go; auto]. }
+  assert (Pe : forall x, pending (with_tree s4 (tree_insert (hs s4) h (tree s4))) x = pending s x).
+  { intros x. apply pending_frame; auto. apply Lp. }
+  assert (So4 : StronglySorted (klt s4) (tree s)).
+  { eapply sorted_ext; [|exact So]. intros y Hy. rewrite Go by congruence. repeat split. }
+  assert (E1 : tree s4 = tree s) by reflexivity.
+  assert (E2 : pipe_of s4 = pipe_of s) by reflexivity.
+  assert (E3 : batch s4 = batch s) by reflexivity.
+  assert (E4 : clq_of s4 = clq_of s) by reflexivity.
+  assert (E5 : length (hs s4) = length (hs s)) by apply len_upd_h.
+  split; ssimpl; rewrite ?E1, ?E2, ?E3, ?E4, ?E5.
+  - intros x. gs.
+    rewrite (insert_in s4) by exact Ni. destruct (Nat.eq_dec x h) as [->|Hn].
+    + rewrite G. simpl. intuition.
+    + rewrite Go by auto. rewrite T. intuition.
+  - eapply sorted_ext; [|apply (insert_sorted s4); eauto]. intros; repeat split.
+  - intros x. gs. destruct (Nat.eq_dec x h) as [->|Hn]; [rewrite G; simpl; auto | rewrite Go; auto].
+  - intros l x Hx. gs. destruct (Nat.eq_dec x h) as [->|Hn]; [rewrite G; simpl; eauto | rewrite Go; eauto].
+  - intros l m Hm. gs. rewrite Lp. auto.
+  - auto.
+  - intros x Hx. rewrite Pe. gs.
+    destruct (Nat.eq_dec x h) as [->|Hn]; [rewrite G; simpl; auto | rewrite Go; auto].
+  - intros x Hx. rewrite Pe. apply Z. gs_in Hx.
+    destruct (Nat.eq_dec x h) as [->|Hn]; [rewrite G in Hx; auto | rewrite Go in Hx; auto].
 Qed.
